@@ -231,4 +231,19 @@ CHECKS["C17"] = {
     "note": TB + "; CPython sys.monitoring LINE events",
 }
 
+CHECKS["C19"] = {
+    "technique": "runtime monitoring: round-trip oracle with field-by-field "
+                 "comparison (not the classes' own ==) over generated "
+                 "instances, packings, plans, orderings and heterogeneous "
+                 "result / statistics tables",
+    "text": "from_X(to_X(obj)) of the real writers/readers is executed on "
+            "generated objects and on CSV tables of 1..40 records built from "
+            "real packings whose optional columns (encoding, max_fes, "
+            "max_time, goal_f) are present/absent in all mixtures; every "
+            "field, dtype, derived attribute and dictionary key is compared. "
+            "Two defects of the pinned moptipy dependency are reported as "
+            "KNOWN-FINDING by mechanism. Held on the objects explored.",
+    "note": TB,
+}
+
 NOT_APPLICABLE = {}
